@@ -351,9 +351,16 @@ def targets():
     return res
 
 
+def vsig(v):
+    import hashlib
+    return hashlib.sha1(json.dumps(v, sort_keys=True).encode()).hexdigest()[:12]
+
+
 def rt_case(pi, mi, p, m, v, lossy=None, shaped=False):
     c = {"op": "rt", "file": p["file"], "type": m["name"], "v": v, "pool": pi, "ty": mi, "unordered": multi_map(p, m, v),
          "shaped": shaped}
+    if shaped:
+        c["vsig"] = vsig(v)        # the flag is about exactly this value (a shrunk case must not inherit it)
     if lossy is not None:
         c["lossy"] = lossy
     return c
@@ -418,7 +425,8 @@ def to_coq(c, o):
     if c["op"] == "rt":
         lossy = c.get("lossy")
         return "CRt pool_%d %d %s %s %s %s %s %s" % (pi, ty, coq_bool(True if lossy is None else lossy),
-                                                    coq_bool(c.get("unordered", False)), coq_bool(c.get("shaped", False)),
+                                                    coq_bool(c.get("unordered", False)),
+                                                    coq_bool(bool(c.get("shaped")) and c.get("vsig") == vsig(c["v"])),
                                                     coq_value(c["v"]), coq_ires(o["enc"]), coq_vres(o["dec"]))
     if c["op"] == "dec":
         return "CDec pool_%d %d %s %s" % (pi, ty, coq_hex(c["b"]), coq_vres(o["dec"]))
